@@ -239,6 +239,12 @@ def replay_rows(pid, data):
     rp = data['replay']
     ls = lockstep.LockStep(pid, random.Random(0))
     ctx = ls.ctx(tuple(rp['ctx']))
+    if rp.get('snapshot'):
+        from vf import observe, machine as M
+        M.activate(ctx.cpu)
+        observe.restore(ctx.cpu, observe.unjson(rp['snapshot']))
+        ls.judge(ctx, {k_: v for k_, v in rp.items() if k_ != 'snapshot'}, 'replay')
+        return dict(evaluations=1, violations=list(ls.viol.values()))
     regs = [int(x, 16) for x in rp['regs']]
     scen.prepare(ctx, random.Random(1), rp['kind'], int(rp['word'], 16), mode=rp['mode'], ns=rp['ns'], regs=regs,
                  code=int(rp.get('code', '0x10000'), 16) if isinstance(rp.get('code'), str) else scen.CODE,
